@@ -113,6 +113,19 @@ def gen(rnd, tier):
             c = D.bytes_case(pre + trunc + [120], [256], err="eof", tag="truncated-utf8")
             c["chunks"] = [pre + trunc, [120]]
             cases.append(c)
+    # the last bytes arrive TOGETHER with the error (io.Reader allows n > 0 with err != nil: readers over sockets, decompressors
+    # and test doubles do it): they are input like any other and must be decoded before the reader stops
+    for i in range(40 if tier == "quick" else 600):
+        ln = rnd.choice([1, 2, 5, 12, 30, 80, 255, 256, 257, 300])
+        bs = soup(rnd, ln)[:ln + 8]
+        c = D.bytes_case(bs, sizes(rnd), err=rnd.choice(["eof", "fail"]), tag="data-with-error")
+        if c["chunks"] and c["chunks"][-1]:
+            c["err_with_last"] = True
+        cases.append(c)
+    for evs in ([("runes", [97, 98, 99])], [("runes", [104, 105]), ("ctl", 13, False)], [("ctl", 13, False)] * 3):
+        c = D.stream_case(evs, tag="data-with-error")
+        c["err_with_last"] = True
+        cases.append(c)
     # unterminated pastes growing over several reads
     for ln in [0, 1, 250, 256, 600]:
         cases.append(D.bytes_case([27, 91, 50, 48, 48, 126] + soup(rnd, ln), [256], err="fail", tag="open-paste"))
